@@ -96,4 +96,51 @@ def gateway_cases():
         back = api.__dict__[rdc](**rd)
         if back != r:
             fails.append({"obligation": "C17/gateway-response", "inputs": repr(r)[:300], "observed": repr(back)[:300], "class": "gateway"})
+    # the REAL client.request_response against an in-process REQ socket whose peer decodes with the real parse_request
+    received = {}
+
+    class FakeSock:
+        def set(self, *a):
+            pass
+
+        def connect(self, url):
+            pass
+
+        def send(self, b):
+            received["req"] = client.parse_request(b)
+            cls = type(received["req"]).__name__[: -len("Request")] + "Response"
+            resp = {"SubmitJobResponse": api.SubmitJobResponse(job_id="j", error=None), "JobProgressResponse": api.JobProgressResponse(progresses={"j": "1.00"}, error=None),
+                    "ResultRetrievalResponse": api.ResultRetrievalResponse(result="AA==", error=None), "ShutdownResponse": api.ShutdownResponse(error=None)}[cls]
+            received["resp_obj"] = resp
+            self.out = client.serialize_response(resp)
+
+        def poll(self, timeout, flags=0):
+            return 1
+
+        def recv(self):
+            return self.out
+
+    class FakeCtx:
+        def socket(self, kind):
+            return FakeSock()
+    real_ctx = client.zmq.Context
+    client.zmq.Context = FakeCtx
+    try:
+        # job instances whose optional fields are filled IN PLACE after construction (pydantic then considers them 'unset')
+        j_inplace = JobInstance(tasks=dict(jobs[0].tasks), edges=list(jobs[0].edges))
+        j_inplace.ext_outputs.append(DatasetId("b", "0"))
+        j_inplace.serdes["k"] = ("a.ser", "a.des")
+        more = [api.SubmitJobRequest(job=api.JobSpec(benchmark_name=None, envvars={}, job_instance=j_inplace, workers_per_host=1, hosts=1, use_slurm=False)),
+                api.SubmitJobRequest(job=api.JobSpec(benchmark_name="generators", envvars={"N": "8"}, job_instance=None, workers_per_host=2, hosts=2, use_slurm=True))]
+        for r in reqs + more:
+            cases += 1
+            import threading
+            resp = client.request_response(r, "tcp://fake:1")
+            got = received["req"]
+            if got.model_dump() != r.model_dump():
+                fails.append({"obligation": "C17/gateway-request-through-client", "inputs": repr(r)[:300], "observed": "server decoded " + repr(got)[:300], "class": "gateway"})
+            if resp.model_dump() != received["resp_obj"].model_dump():
+                fails.append({"obligation": "C17/gateway-response-through-client", "inputs": repr(received["resp_obj"])[:300], "observed": repr(resp)[:300], "class": "gateway"})
+    finally:
+        client.zmq.Context = real_ctx
     return cases, fails, samples
